@@ -135,339 +135,9 @@ Property make_spec_property(
     return p;
 }
 
-static const std::vector<std::string> kAllCfgs = {
+inline const std::vector<std::string> kAllCfgs = {
     "chk_vec",     "fast_vec",     "nohash_vec",    "map",
     "chk_vec_ind", "fast_vec_ind", "nohash_vec_ind"};
-
-// ---------------------------------------------------------------------------
-// C01
-
-inline Property prop_C01(const std::string& variant) {
-    auto gen = [variant](Choice& ch, int size) {
-        SpecCase c;
-        c.cfg = pick_cfg(ch, kAllCfgs, variant);
-        GenOpts o;
-        o.id_schemes = ids_for(need_config(c.cfg));
-        c.spec = gen_spec(ch, o, size);
-        return c;
-    };
-    auto run = [](const SpecCase& c) {
-        Outcome o;
-        o.hash = hash_case(c);
-        Config& cfg = need_config(c.cfg);
-        World w(cfg, c.spec);
-        w.register_all();
-        UpdateOutcome up;
-        if (!do_update(w, o, up)) {
-            return o;
-        }
-        DispatchStats ds;
-        check_dispatch(w, o, ds);
-        o.nontrivial = ds.multi_applicable;
-        common_classes(c.spec, o);
-        o.classes.push_back(cfg.name.c_str());
-        if (ds.multi_applicable) {
-            o.classes.push_back("tuple_with_2+_applicable");
-        }
-        if (ds.has_none) {
-            o.classes.push_back("NONE_tuple");
-        }
-        if (ds.has_ambig) {
-            o.classes.push_back("AMBIGUOUS_tuple");
-        }
-        if (has_nontransitive(c.spec)) {
-            o.classes.push_back("nontransitive_more_specific");
-        }
-        return o;
-    };
-    return make_spec_property("C01", variant, gen, run, true);
-}
-
-// ---------------------------------------------------------------------------
-// C03
-
-inline Property prop_C03(const std::string& variant) {
-    auto gen = [variant](Choice& ch, int size) {
-        SpecCase c;
-        c.cfg = pick_cfg(ch, {"chk_vec", "fast_vec", "nohash_vec", "map"},
-                         variant);
-        GenOpts o;
-        o.id_schemes = ids_for(need_config(c.cfg));
-        c.spec = gen_spec(ch, o, size);
-        return c;
-    };
-    auto run = [](const SpecCase& c) {
-        Outcome o;
-        o.hash = hash_case(c);
-        Config& cfg = need_config(c.cfg);
-        World w(cfg, c.spec);
-        w.register_all();
-        UpdateOutcome up;
-        if (!do_update(w, o, up)) {
-            return o;
-        }
-        NextStats ns;
-        check_next(w, o, ns);
-        o.nontrivial = ns.two_general;
-        common_classes(c.spec, o);
-        if (ns.two_general) {
-            o.classes.push_back("def_with_2+_more_general");
-        }
-        return o;
-    };
-    return make_spec_property("C03", variant, gen, run, true);
-}
-
-// ---------------------------------------------------------------------------
-// C04
-
-inline Property prop_C04(const std::string& variant) {
-    auto gen = [variant](Choice& ch, int size) {
-        SpecCase c;
-        c.cfg = pick_cfg(ch, {"chk_vec", "fast_vec", "nohash_vec", "map"},
-                         variant);
-        GenOpts o;
-        o.id_schemes = ids_for(need_config(c.cfg));
-        o.lattice_bias = true;
-        o.vp_anywhere = true;
-        o.max_methods = 8;
-        o.max_defs = 6;
-        o.canonical_presentation = false;
-        c.spec = gen_spec(ch, o, size);
-        if (ch.chance(1, 3)) {
-            canonical_presentation(c.spec);
-        }
-        return c;
-    };
-    auto run = [](const SpecCase& c) {
-        Outcome o;
-        o.hash = hash_case(c);
-        Config& cfg = need_config(c.cfg);
-        World w(cfg, c.spec);
-        w.register_all();
-        UpdateOutcome up;
-        if (!do_update(w, o, up)) {
-            return o;
-        }
-        WalkStats ws;
-        check_slots_and_walk(w, o, up, ws);
-        if (ws.drift) {
-            o.inconclusive = true;
-            o.classes.push_back("layout_drift");
-        }
-        // (c) the real resolve under ASan, all tuples
-        DispatchStats ds;
-        if (o.ok) {
-            check_dispatch(w, o, ds, false);
-        }
-        // lattice allocator ran: a class with >= 2 direct bases below a root
-        // that some method uses
-        bool lattice = false;
-        for (int k = 0; k < c.spec.n; ++k) {
-            if (c.spec.bases[k].size() >= 2) {
-                lattice = true;
-            }
-        }
-        o.nontrivial = lattice && ws.shared;
-        common_classes(c.spec, o);
-        if (ws.shared) {
-            o.classes.push_back("class_shared_by_2+_method_params");
-        }
-        return o;
-    };
-    return make_spec_property("C04", variant, gen, run, false);
-}
-
-// ---------------------------------------------------------------------------
-// C17
-
-inline Property prop_C17(const std::string& variant) {
-    auto gen = [variant](Choice& ch, int size) {
-        SpecCase c;
-        c.cfg = pick_cfg(ch, {"chk_vec", "nohash_vec", "map"}, variant);
-        GenOpts o;
-        o.id_schemes = ids_for(need_config(c.cfg));
-        o.abstract_flags = true;
-        o.allow_dup_defs = true;
-        o.gappy = true;
-        o.max_classes = 12;
-        c.spec = gen_spec(ch, o, size);
-        return c;
-    };
-    auto run = [](const SpecCase& c) {
-        Outcome o;
-        o.hash = hash_case(c);
-        Config& cfg = need_config(c.cfg);
-        World w(cfg, c.spec);
-        w.register_all();
-        UpdateOutcome up;
-        if (!do_update(w, o, up)) {
-            return o;
-        }
-        ReportModel rm = model_report(c.spec);
-        check_report(w, o, up, rm);
-        bool any_abstract = false;
-        for (char a : c.spec.abstract_) {
-            any_abstract |= a != 0;
-        }
-        o.nontrivial = any_abstract && (rm.not_implemented || rm.ambiguous);
-        common_classes(c.spec, o);
-        if (rm.not_implemented != rm.concrete_not_implemented) {
-            o.classes.push_back("gap_only_on_abstract_tuples");
-        }
-        if (rm.ambiguous != rm.concrete_ambiguous) {
-            o.classes.push_back("ambiguity_only_on_abstract_tuples");
-        }
-        if (rm.ambiguous) {
-            o.classes.push_back("AMBIGUOUS_tuple");
-        }
-        if (rm.not_implemented) {
-            o.classes.push_back("NONE_tuple");
-        }
-        if (rm.cells) {
-            o.classes.push_back("has_multi_method_cells");
-        }
-        return o;
-    };
-    return make_spec_property("C17", variant, gen, run, true);
-}
-
-// ---------------------------------------------------------------------------
-// C02
-
-inline Property prop_C02(const std::string& variant) {
-    auto gen = [variant](Choice& ch, int size) {
-        SpecCase c;
-        c.cfg = pick_cfg(ch, {"chk_vec", "bc_err", "nohash_vec", "map",
-                              "fast_vec"},
-                         variant);
-        GenOpts o;
-        o.id_schemes = ids_for(need_config(c.cfg));
-        o.allow_dup_defs = true;
-        o.gappy = true;
-        o.max_defs = 8;
-        c.spec = gen_spec(ch, o, size);
-        return c;
-    };
-    auto run = [](const SpecCase& c) {
-        Outcome o;
-        o.hash = hash_case(c);
-        Config& cfg = need_config(c.cfg);
-        World w(cfg, c.spec);
-        w.register_all();
-        UpdateOutcome up;
-        if (!do_update(w, o, up)) {
-            return o;
-        }
-        ErrorStats es;
-        // fork for roughly one case in eight, decided by the case itself
-        int fork_budget = (o.hash % 8) == 0 ? 1 : 0;
-        check_errors(w, o, es, 6, fork_budget);
-        o.nontrivial = es.error_calls > 0 && es.nonvirtual_or_multi;
-        common_classes(c.spec, o);
-        o.classes.push_back(cfg.name.c_str());
-        if (es.error_calls) {
-            o.classes.push_back("has_error_call");
-        }
-        if (es.forked) {
-            o.classes.push_back("forked_handler_returns");
-        }
-        return o;
-    };
-    return make_spec_property("C02", variant, gen, run, true);
-}
-
-// ---------------------------------------------------------------------------
-// C06: permutations of the registration order
-
-struct Perm {
-    std::vector<int> recs, meths;
-    std::vector<std::vector<int>> defs; // per method (original index)
-};
-
-inline Spec apply_perm(const Spec& s, const Perm& p) {
-    Spec r = s;
-    r.recs.clear();
-    for (int i : p.recs) {
-        r.recs.push_back(s.recs[i]);
-    }
-    r.meths.clear();
-    for (int mi : p.meths) {
-        MethSpec m = s.meths[mi];
-        m.defs.clear();
-        for (int d : p.defs[mi]) {
-            m.defs.push_back(s.meths[mi].defs[d]);
-        }
-        r.meths.push_back(m);
-    }
-    return r;
-}
-
-inline Perm gen_perm(Choice& ch, const Spec& s) {
-    Perm p;
-    for (std::size_t i = 0; i < s.recs.size(); ++i) {
-        p.recs.push_back(int(i));
-    }
-    for (std::size_t i = 0; i < s.meths.size(); ++i) {
-        p.meths.push_back(int(i));
-        std::vector<int> d;
-        for (std::size_t k = 0; k < s.meths[i].defs.size(); ++k) {
-            d.push_back(int(k));
-        }
-        permute(ch, d);
-        p.defs.push_back(d);
-    }
-    permute(ch, p.recs);
-    permute(ch, p.meths);
-    return p;
-}
-
-inline bool is_identity(const Perm& p) {
-    auto id = [](const std::vector<int>& v) {
-        for (std::size_t i = 0; i < v.size(); ++i) {
-            if (v[i] != int(i)) {
-                return false;
-            }
-        }
-        return true;
-    };
-    bool r = id(p.recs) && id(p.meths);
-    for (auto& d : p.defs) {
-        r = r && id(d);
-    }
-    return r;
-}
-
-struct PermCase {
-    SpecCase base;
-    std::vector<Perm> perms;
-    bool exhaustive = false; // enumerate every permutation instead
-};
-
-inline json to_json(const PermCase& c) {
-    json j = to_json(c.base);
-    j["exhaustive"] = c.exhaustive;
-    j["perms"] = json::array();
-    for (auto& p : c.perms) {
-        j["perms"].push_back(
-            {{"recs", p.recs}, {"meths", p.meths}, {"defs", p.defs}});
-    }
-    return j;
-}
-
-inline PermCase perm_case_from_json(const json& j) {
-    PermCase c;
-    c.base = spec_case_from_json(j);
-    c.exhaustive = j.value("exhaustive", false);
-    for (auto& jp : j.at("perms")) {
-        Perm p;
-        p.recs = jp.at("recs").get<std::vector<int>>();
-        p.meths = jp.at("meths").get<std::vector<int>>();
-        p.defs = jp.at("defs").get<std::vector<std::vector<int>>>();
-        c.perms.push_back(p);
-    }
-    return c;
-}
 
 inline bool observe_spec(
     Config& cfg, const Spec& s, Outcome& o, Obs& obs) {
@@ -481,327 +151,20 @@ inline bool observe_spec(
     return true;
 }
 
-inline Outcome run_perm_case(const PermCase& c) {
-    Outcome o;
-    vf::Fnv h;
-    h.add(hash_case(c.base));
-    Config& cfg = need_config(c.base.cfg);
-    const Spec& s = c.base.spec;
-    Obs ref;
-    if (!observe_spec(cfg, s, o, ref)) {
-        return o;
-    }
-    bool three = false;
-    for (auto& m : s.meths) {
-        Tuples tu(s, m);
-        while (tu.next() && !three) {
-            three = count_applicable(s, m, tu.t.data()) >= 3;
-        }
-    }
-    bool nonid = false;
-    auto try_perm = [&](const Perm& p) {
-        Spec ps = apply_perm(s, p);
-        Obs obs;
-        Outcome o2;
-        if (!observe_spec(cfg, ps, o2, obs)) {
-            if (!o2.ok) {
-                o.fail(o2.message);
-            }
-            return;
-        }
-        auto d = diff_obs(ref, obs);
-        if (!d.empty()) {
-            o.fail("order: registering in a different order changes the "
-                   "outcome: " + d);
-        }
-    };
-    if (c.exhaustive) {
-        Perm p;
-        for (std::size_t i = 0; i < s.recs.size(); ++i) {
-            p.recs.push_back(int(i));
-        }
-        for (std::size_t i = 0; i < s.meths.size(); ++i) {
-            p.meths.push_back(int(i));
-            p.defs.emplace_back();
-            for (std::size_t k = 0; k < s.meths[i].defs.size(); ++k) {
-                p.defs.back().push_back(int(k));
-            }
-        }
-        // odometer over all permutations of records x methods x definitions
-        std::function<void(std::size_t)> rec_defs = [&](std::size_t mi) {
-            if (!o.ok) {
-                return;
-            }
-            if (mi == p.defs.size()) {
-                try_perm(p);
-                return;
-            }
-            std::sort(p.defs[mi].begin(), p.defs[mi].end());
-            do {
-                rec_defs(mi + 1);
-            } while (o.ok &&
-                     std::next_permutation(
-                         p.defs[mi].begin(), p.defs[mi].end()));
-        };
-        do {
-            std::sort(p.meths.begin(), p.meths.end());
-            do {
-                rec_defs(0);
-            } while (o.ok &&
-                     std::next_permutation(p.meths.begin(), p.meths.end()));
-        } while (o.ok && std::next_permutation(p.recs.begin(), p.recs.end()));
-        nonid = true;
-        o.classes.push_back("exhaustive_permutations");
-    } else {
-        for (auto& p : c.perms) {
-            for (int x : p.recs) {
-                h.add(x);
-            }
-            for (int x : p.meths) {
-                h.add(x);
-            }
-            for (auto& d : p.defs) {
-                for (int x : d) {
-                    h.add(x);
-                }
-            }
-            nonid |= !is_identity(p);
-            if (o.ok) {
-                try_perm(p);
-            }
-        }
-    }
-    o.hash = h.h;
-    o.nontrivial = nonid && three;
-    common_classes(s, o);
-    if (three) {
-        o.classes.push_back("tuple_with_3+_applicable");
-    }
-    if (has_nontransitive(s)) {
-        o.classes.push_back("nontransitive_more_specific");
-    }
-    return o;
-}
 
-inline Property prop_C06(const std::string& variant) {
-    auto gen = [variant](Choice& ch, int size) {
-        PermCase c;
-        c.base.cfg = pick_cfg(ch, {"chk_vec", "nohash_vec", "map"}, variant);
-        GenOpts o;
-        o.id_schemes = ids_for(need_config(c.base.cfg));
-        c.exhaustive = ch.chance(1, 6);
-        if (c.exhaustive) {
-            o.max_classes = 3;
-            o.max_methods = 2;
-            o.max_defs = 3;
-            o.lattice_bias = true;
-        }
-        c.base.spec = gen_spec(ch, o, size);
-        if (!c.exhaustive) {
-            int np = 2 + (size > 50 ? ch.draw(4) : 0);
-            for (int i = 0; i < np; ++i) {
-                c.perms.push_back(gen_perm(ch, c.base.spec));
-            }
-        }
-        return c;
-    };
-    Property p;
-    p.id = "C06";
-    p.variant = variant;
-    p.generate = [gen](Choice& ch, int size) { return to_json(gen(ch, size)); };
-    p.run = [](const json& j) { return run_perm_case(perm_case_from_json(j)); };
-    p.fast = [gen](Choice& ch, int size, std::function<json()>& lazy) {
-        auto c = std::make_shared<PermCase>(gen(ch, size));
-        lazy = [c]() { return to_json(*c); };
-        return run_perm_case(*c);
-    };
-    p.shrinks = [](const json& j) {
-        PermCase c = perm_case_from_json(j);
-        std::vector<json> out;
-        // fewer permutations
-        for (std::size_t i = 0; i < c.perms.size() && c.perms.size() > 1;
-             ++i) {
-            PermCase r = c;
-            r.perms.erase(r.perms.begin() + i);
-            out.push_back(to_json(r));
-        }
-        // smaller registry; permutations become "reverse everything"
-        for (auto& s : spec_shrinks(c.base.spec, true)) {
-            PermCase r;
-            r.base = {c.base.cfg, s};
-            r.exhaustive = c.exhaustive;
-            if (!c.exhaustive) {
-                Perm p;
-                for (int i = int(s.recs.size()) - 1; i >= 0; --i) {
-                    p.recs.push_back(i);
-                }
-                for (std::size_t i = 0; i < s.meths.size(); ++i) {
-                    p.meths.insert(p.meths.begin(), int(i));
-                    std::vector<int> d;
-                    for (int k = int(s.meths[i].defs.size()) - 1; k >= 0; --k) {
-                        d.push_back(k);
-                    }
-                    p.defs.push_back(d);
-                }
-                r.perms.push_back(p);
-            }
-            out.push_back(to_json(r));
-        }
-        return out;
-    };
-    return p;
-}
-
-// ---------------------------------------------------------------------------
-// C08: presentations of the inheritance graph
-
-inline Outcome run_presentation_case(const SpecCase& c) {
-    Outcome o;
-    o.hash = hash_case(c);
-    Config& cfg = need_config(c.cfg);
-    const Spec& s = c.spec;
-    Spec canon = s;
-    canonical_presentation(canon);
-    Obs ref;
-    if (!observe_spec(cfg, canon, o, ref)) {
-        return o;
-    }
-    {
-        World w(cfg, s);
-        w.register_all();
-        UpdateOutcome up;
-        if (!do_update(w, o, up)) {
-            return o;
-        }
-        Obs obs = observe(w);
-        auto d = diff_obs(ref, obs);
-        if (!d.empty()) {
-            o.fail("presentation: the same graph registered differently "
-                   "dispatches differently: " + d);
-        }
-        // against the model as well, and slot injectivity / bounds
-        DispatchStats ds;
-        if (o.ok) {
-            check_dispatch(w, o, ds, false);
-        }
-        NextStats ns;
-        if (o.ok) {
-            check_next(w, o, ns);
-        }
-        WalkStats ws;
-        if (o.ok) {
-            check_slots_and_walk(w, o, up, ws);
-        }
-        // acceptance relation as inferred by the compiler
-        if (o.ok && up.comp) {
-            // map compiler classes back to spec classes through ids
-            std::map<const void*, int> cls_of;
-            for (auto& cc : up.comp->classes) {
-                for (int k = 0; k < s.n; ++k) {
-                    if (!cc.type_ids.empty() &&
-                        cc.type_ids[0] == w.objs[k].id) {
-                        cls_of[&cc] = k;
-                    }
-                }
-            }
-            for (auto& cc : up.comp->classes) {
-                auto it = cls_of.find(&cc);
-                if (it == cls_of.end()) {
-                    continue;
-                }
-                std::uint64_t accepted = 0;
-                for (auto d : cc.covariant_classes) {
-                    auto jt = cls_of.find(d);
-                    if (jt != cls_of.end()) {
-                        accepted |= 1ull << jt->second;
-                    }
-                }
-                if (accepted != s.desc[it->second]) {
-                    o.fail("acceptance: classes accepted where class " +
-                           std::to_string(it->second) +
-                           " is expected differ from its derived classes");
-                }
-            }
-        }
-        if (o.ok) {
-            ReportModel rm = model_report(s);
-            check_report(w, o, up, rm);
-        }
-    }
-    // non-trivial: the presentation omits an indirect base of a class that
-    // has >= 2 direct bases
-    bool omits = false, incomplete = false;
-    for (int k = 0; k < s.n; ++k) {
-        std::uint64_t listed = 0;
-        for (auto& r : s.recs) {
-            if (r.cls == k) {
-                for (int b : r.bases) {
-                    listed |= 1ull << b;
-                }
-            }
-        }
-        std::uint64_t proper = s.anc[k] & ~(1ull << k);
-        if ((listed & proper) != proper) {
-            incomplete = true;
-            if (s.bases[k].size() >= 2) {
-                omits = true;
-            }
-        }
-    }
-    o.nontrivial = omits;
-    common_classes(s, o);
-    if (incomplete) {
-        o.classes.push_back("incomplete_base_list");
-    }
-    if (s.recs.size() > std::size_t(s.n)) {
-        o.classes.push_back("several_records_per_class");
-    }
-    return o;
-}
-
-inline Property prop_C08(const std::string& variant) {
-    auto gen = [variant](Choice& ch, int size) {
-        SpecCase c;
-        c.cfg = pick_cfg(ch, {"chk_vec", "nohash_vec", "map"}, variant);
-        GenOpts o;
-        o.id_schemes = ids_for(need_config(c.cfg));
-        o.lattice_bias = true;
-        o.vp_anywhere = true;
-        o.canonical_presentation = false;
-        o.max_methods = 5;
-        o.max_defs = 8;
-        c.spec = gen_spec(ch, o, size);
-        return c;
-    };
-    return make_spec_property("C08", variant, gen, run_presentation_case,
-                              false);
-}
-
-inline std::optional<Property>
-lookup_property(const std::string& id, const std::string& variant) {
-    if (id == "C01") {
-        return prop_C01(variant);
-    }
-    if (id == "C03") {
-        return prop_C03(variant);
-    }
-    if (id == "C04") {
-        return prop_C04(variant);
-    }
-    if (id == "C02") {
-        return prop_C02(variant);
-    }
-    if (id == "C06") {
-        return prop_C06(variant);
-    }
-    if (id == "C08") {
-        return prop_C08(variant);
-    }
-    if (id == "C17") {
-        return prop_C17(variant);
-    }
-    return std::nullopt;
-}
+Property prop_C01(const std::string& variant);
+Property prop_C02(const std::string& variant);
+Property prop_C03(const std::string& variant);
+Property prop_C04(const std::string& variant);
+Property prop_C06(const std::string& variant);
+Property prop_C07(const std::string& variant);
+Property prop_C08(const std::string& variant);
+Property prop_C10(const std::string& variant);
+Property prop_C12(const std::string& variant);
+Property prop_C13(const std::string& variant);
+Property prop_C14(const std::string& variant);
+Property prop_C15(const std::string& variant);
+Property prop_C17(const std::string& variant);
 
 } // namespace e1
 
